@@ -367,6 +367,22 @@ impl SimCtx {
                 self.sync_all();
                 r
             }
+            ["loadraw", spec] => {
+                // the same image, but built through the text object format (no assembler limits: blocks may lie in the
+                // I/O page, reach xFFFF or wrap around)
+                let mut txt = String::from("LC-3 OBJ FILE\n\n.TEXT\n");
+                for blk in spec.split(';') {
+                    if blk.is_empty() { continue; }
+                    let Some((st, ws)) = blk.split_once(':') else { return "bad-op".into() };
+                    let cells: Vec<&str> = ws.split(',').filter(|w| !w.is_empty()).collect();
+                    txt.push_str(&format!("{}\n{}\n", st.to_uppercase(), cells.len()));
+                    for w in cells { if w == "_" { txt.push_str("????\n"); } else { txt.push_str(&format!("{}\n", w.to_uppercase())); } }
+                }
+                let Some(obj) = <lc3_ensemble::asm::encoding::TextFormat as lc3_ensemble::asm::encoding::ObjFileFormat>::deserialize(&txt) else { return "bad-obj".into() };
+                let r = Self::res_str(self.guarded(|s| s.load_obj_file(&obj)));
+                self.sync_all();
+                r
+            }
             ["step"] => {
                 let r = self.with_locks(|s| s.step_in());
                 self.digest(&Self::res_str(r), true)
